@@ -79,7 +79,8 @@ def oracle(run, op, o, cols, lines):
 def path_api(ctx, job, box):
     cols, lines = job.params['geom']
     op = job.params['op']
-    run = GridRun(ctx, box, cols, lines, cursor='pick', tabstops=1, savepoints=0)
+    opts = remote_opts(cols, lines) if job.params.get('remote') else {'cursor': 'pick'}
+    run = GridRun(ctx, box, cols, lines, tabstops=1, savepoints=0, **opts)
     o = sym_opt_u32(ctx, 'a')
     if op == 'erase_characters':
         run.call(op, o)
@@ -130,6 +131,9 @@ def jobs(tier):
     for g in geoms(tier):
         for op in OPS:
             js.append(Job('api/%s/%dx%d' % (op, g[0], g[1]), path_api, op=op, geom=g, prop=PROP))
+    for g in remote_geoms(tier):
+        for op in OPS:
+            js.append(Job('remote/%s/%dx%d' % (op, g[0], g[1]), path_api, op=op, geom=g, remote=True, prop=PROP))
     for g in [(2, 1), (3, 2)] if tier == 'quick' else [(2, 1), (3, 2), (2, 3)]:
         for fin in FINALS:
             for n in (0, 1, 2):
